@@ -61,6 +61,7 @@ class ArrayModel:
         self.fill_on = fillmode_on
         self.user_fill = user_fill          # numpy scalar or None
         self.written = False
+        self.pre_taint_fill = None          # fill mode in force at refused writes issued before any data existed
 
     @property
     def rank(self):
@@ -92,10 +93,16 @@ class ArrayModel:
         ns[old:] = self.FILL if self.fill_on else self.UNKNOWN
         self.val, self.st = nv, ns
 
+    def _untouched_state(self):
+        """State of cells no write has touched. A refused write issued before any data were stored may or may
+        not have allocated the storage (pre-filling it only if fill mode was on at that moment), so such cells
+        are only known to hold the fill value if fill mode was on then and is on now."""
+        return self.FILL if (self.fill_on and self.pre_taint_fill is not False) else self.UNKNOWN
+
     def first_write_prefill(self):
         if not self.written:
             self.written = True
-            self.st[self.st == self.UNTOUCHED] = self.FILL if self.fill_on else self.UNKNOWN
+            self.st[self.st == self.UNTOUCHED] = self._untouched_state()
 
     def classify(self, start, stride, count):
         """returns 'ok', 'grow' (legal growth along unlimited), or 'bad' (outside the extent)"""
@@ -131,8 +138,9 @@ class ArrayModel:
     def taint(self, start, stride, count):
         """a refused out-of-range write: cells of the request that lie inside the array become unknown"""
         stride = stride or [1] * self.rank
-        # a refused write may already have allocated (and, in fill mode, pre-filled) the storage
-        self.first_write_prefill()
+        # a refused write may already have allocated (and, in fill mode, pre-filled) the storage -- or not
+        if not self.written:
+            self.pre_taint_fill = bool(self.fill_on) and self.pre_taint_fill is not False
         shape = self.cur_shape()
         idx = []
         for i in range(self.rank):
@@ -150,7 +158,7 @@ class ArrayModel:
         v = self.val[sl].copy()
         s = self.st[sl].copy()
         # data never stored at all: the SD interface returns the fill value
-        s[s == self.UNTOUCHED] = self.FILL if self.fill_on else self.UNKNOWN
+        s[s == self.UNTOUCHED] = self._untouched_state()
         v[s == self.FILL] = self.fill_value()
         return v.reshape(-1), s.reshape(-1)
 
